@@ -133,6 +133,13 @@ def run(ctx):
     for names in (["a.py", "a.pyc", "a.pyo"], ["a.py", "a.py,cover", "a.pyc"], ["a.py", "a.py.orig", "a.pyo", "b.pyc"],
                   ["b.pyc", "b.pyo"], ["a.py", "a.pyc", "a.pyc.bak", "c.pyo"]):
         cases.append(({"files": names, "subs": [["sub", {"files": list(reversed(names)), "subs": []}]]}, [()], False, False, [], False))
+    # directed: names given with --ignore_dir are names, not patterns
+    orphan = lambda: {"files": ["old.pyc", "gone.pyo", "kept.py", "kept.pyc"], "subs": []}  # noqa: E731
+    for ign in (["build[1]"], ["de?p"], ["bu*"], ["build1"]):
+        cases.append(({"files": ["a.pyc"], "subs": [["pkg", {"files": [], "subs": [["build[1]", orphan()], ["build1", orphan()],
+                                                                                 ["deep", orphan()], ["de?p", orphan()],
+                                                                                 ["bu*", orphan()]]}]]},
+                      [()], False, False, ign, False))
     for i in range(n):
         tree = gen_tree(rng, rng.choice([1, 2, 3, 4]))
         dirs = list(all_dirs(tree))
